@@ -148,6 +148,30 @@ def _cell_min(cell: Dict[str, Any]) -> int:
     raise ValueError(k)
 
 
+def _no_width_pressure(an: Dict[str, Any], cols, W: int) -> bool:
+    """True when all cells are plain text, no column has a ratio, and the table at its natural width
+    (widest line of every column, capped by an explicit max_width / width on the *content*) fits W."""
+    from vf.rtc.specnative import cells as _cc
+
+    total = an["extra"]
+    for j, col in enumerate(cols):
+        if col["ratio"]:
+            return False
+        widest = 1
+        for (i, jj), cell in an["grid"].items():
+            if jj != j:
+                continue
+            if cell["k"] != "text":
+                return False
+            widest = max([widest] + [_cc(line) for line in cell["s"].split("\n")])
+        if col["width"] is not None:
+            widest = col["width"]
+        elif col["max_width"] is not None:
+            widest = min(widest, col["max_width"])
+        total += an["pads"][j][0] + an["pads"][j][1] + max(widest, an["cmin"][j])
+    return total <= W
+
+
 def _cell_markers(cell: Dict[str, Any]) -> List[str]:
     k = cell["k"]
     if k in ("text", "panel"):
@@ -505,7 +529,17 @@ def check_case(desc: Dict[str, Any], W: int) -> Tuple[Dict[str, int], List[Dict[
                 exp = _cell_markers(cell)
                 got = per_cell.get((i, j), [])
                 if exp != got:
-                    if widths[j] < need_w[j]:
+                    if widths[j] < need_w[j] and _no_width_pressure(an, cols, W):
+                        # every column's natural width fits: nothing forces the solver to shrink anything, so a
+                        # starved column here is NOT the recorded solver limitation (known finding) but something
+                        # else (e.g. a cap applied to padding + content instead of content)
+                        fail("c07.fold_cell_in_column.starved_without_pressure",
+                             "fold column %d solved to %d cells < padding %d + content minimum %d although the table's "
+                             "natural width fits W=%d; row %d shows %d of %d characters"
+                             % (j, widths[j], sum(an["pads"][j]), an["cmin"][j], W, i, len(got), len(exp)),
+                             "".join(exp), {"shown": "".join(got), "column_widths": widths, "needed": need_w,
+                                            "lines": body[:30]}, "capped" if cols[j]["max_width"] is not None else "auto")
+                    elif widths[j] < need_w[j]:
                         fail("c07.fold_cell_in_column.starved_column",
                              "fold column %d solved to %d cells < padding %d + content minimum %d although W=%d >= structural "
                              "minimum %d; row %d shows %d of %d characters"
